@@ -344,6 +344,10 @@ def r6(ctx):
                   'Utxo::cmp: height descending=%s, lexicographic chain=%s, components=%s' % (uo['height_desc'], uo['lexicographic'], uo['components']))
     from rules import atoms
     atoms.merge_order(ctx, 'R6')
+    # "each once" over all pages, also when a block stabilises between two pages: both sorted sources
+    # order outpoints identically (shared with C06.R7)
+    from rules import c06
+    c06.r7_order_agreement(ctx, 'R6')
     rn = ctx.fn('R6', T + 'AddressUtxoRange::new')
     if rn:
         e = ex(prog, rn)
